@@ -799,6 +799,12 @@ P("concat_interleave_proj_cumsum", lambda t: t.dd.concat([t.df, t.df4], interlea
 P("agg_multiindex_columns_select", lambda t: t.df.groupby("a").agg({"u": ["sum", "mean"], "f": ["max"]})[[("f", "max")]], order_free=True)
 P("agg_multiindex_columns_nlargest_select", lambda t: t.df.groupby("a").agg({"u": ["sum", "mean"], "f": ["max"]}).nlargest(2, ("u", "sum"))[[("f", "max")]], order_free=True)
 P("agg_multiindex_columns_dropna_select", lambda t: t.df.groupby("a").agg({"u": ["sum", "mean"], "f": ["max"]}).dropna(subset=[("u", "mean")])[[("f", "max")]], order_free=True)
+# sorts / set_index on a key that is unique but in no order in the input (k = 37 u mod 101, distinct for u < 101): the last /
+# first rows of the result come from anywhere in the input. C11 also runs these on 12 input partitions, more than one batch
+# of the tree reduction behind head()/tail() of a sorted frame (seed C11_7)
+P("sort_scrambled_key", lambda t: t.df.assign(k=(t.df.u * 37) % 101).sort_values("k")[["k", "u", "a"]], tags={"sort"})
+P("sort_scrambled_key_desc", lambda t: t.df.assign(k=(t.df.u * 37) % 101).sort_values("k", ascending=False)[["k", "u", "a"]], tags={"sort"})
+P("set_index_scrambled_key", lambda t: t.df.assign(k=(t.df.u * 37) % 101)[["k", "u", "a"]].set_index("k") if t.lazy else t.df.assign(k=(t.df.u * 37) % 101)[["k", "u", "a"]].set_index("k").sort_index(kind="stable"), tags={"sort"})
 P("parts_strided_series", lambda t: t.df.partitions[[0, 2]].u if t.lazy else t.df.u, dask_only=True, tags={"parts"}, only={"C01", "C06", "C07", "C09", "C14"})
 P("parts_strided_proj_elemwise", lambda t: t.df.partitions[[0, 2]][["u", "a"]] + 1 if t.lazy else t.df[["u", "a"]], dask_only=True, tags={"parts"}, only={"C01", "C06", "C07", "C09", "C14"})
 
